@@ -4,6 +4,10 @@ from vx.layouts import shape_clauses
 GLB = "src/core/global.rs"
 CAP = "src/core/capability.rs"
 CLI = "src/core/client.rs"
+import os
+# VERIF_DOC_STRICT=1 replaces every "as-implemented" layout clause below by the clause transcribed from the document (these FAIL on the
+# current code: each one is a reported discrepancy between the code and MS-RDPBCGR, see the comment at the clause)
+DOC_STRICT = os.environ.get("VERIF_DOC_STRICT") == "1"
 
 items = []
 A = items.append
@@ -27,6 +31,72 @@ pub open spec fn capability_set_view(cap_type: u16, body: Seq<u8>) -> MV {
 }
 pub open spec fn cache_entry_view() -> MV { MV::Comp(seq![("cacheEntries"@, MV::U16(0, true)), ("cacheMaximumCellSize"@, MV::U16(0, true))]) }
 """, mod="capability", name="capability_specs"))
+
+A(Raw(r"""
+// ---------------- capability sets as the SERVER sends them in the Demand Active PDU (parsed by Capability::from_capability_set), transcribed from
+// MS-RDPBCGR 2.2.7.1.x / 2.2.7.2.x (NOT derived from the code).  These views pin the LAYOUT (order, names, kinds, widths, endianness, checked constants,
+// fixed sizes, optional fields); plain values are left to the builder (`f` = its own field list: f16(f, i) is "a u16 LE at position i, whatever its value").
+pub open spec fn zeros(n: nat) -> Seq<u8> { Seq::new(n, |i: int| 0u8) }
+pub open spec fn f8(f: Seq<(Seq<char>, MV)>, i: int) -> MV { MV::U8(f[i].1->U8_0) }
+pub open spec fn f16(f: Seq<(Seq<char>, MV)>, i: int) -> MV { MV::U16(f[i].1->U16_0, true) }
+pub open spec fn f32(f: Seq<(Seq<char>, MV)>, i: int) -> MV { MV::U32(f[i].1->U32_0, true) }
+/// a field the document fixes with MUST: read through a Check
+pub open spec fn c16(v: u16) -> MV { MV::Check(Box::new(MV::U16(v, true))) }
+/// TS_GENERAL_CAPABILITYSET (2.2.7.1.1): protocolVersion MUST be 0x0200, generalCompressionTypes / updateCapabilityFlag / remoteUnshareFlag /
+/// generalCompressionLevel MUST be 0; the other fields are plain values
+pub open spec fn general_cap_view(f: Seq<(Seq<char>, MV)>) -> MV {
+    MV::Comp(seq![("osMajorType"@, f16(f, 0)), ("osMinorType"@, f16(f, 1)), ("protocolVersion"@, c16(0x0200)), ("pad2octetsA"@, f16(f, 3)),
+                  ("generalCompressionTypes"@, c16(0)), ("extraFlags"@, f16(f, 5)), ("updateCapabilityFlag"@, c16(0)), ("remoteUnshareFlag"@, c16(0)),
+                  ("generalCompressionLevel"@, c16(0)), ("refreshRectSupport"@, f8(f, 9)), ("suppressOutputSupport"@, f8(f, 10))])
+}
+/// TS_BITMAP_CAPABILITYSET (2.2.7.1.2): bitmapCompressionFlag and multipleRectangleSupport MUST be 0x0001 (checked).  receive1BitPerPixel / receive4BitsPerPixel /
+/// receive8BitsPerPixel ("ignored and SHOULD be set to TRUE") and highColorFlags ("ignored and SHOULD be set to zero") are plain values in the document:
+/// `r1`, `r4`, `r8`, `hc` = the views of these four fields (see ts_bitmap_capability_set below)
+pub open spec fn bitmap_cap_view(f: Seq<(Seq<char>, MV)>, r1: MV, r4: MV, r8: MV, hc: MV) -> MV {
+    MV::Comp(seq![("preferredBitsPerPixel"@, f16(f, 0)), ("receive1BitPerPixel"@, r1), ("receive4BitsPerPixel"@, r4), ("receive8BitsPerPixel"@, r8),
+                  ("desktopWidth"@, f16(f, 4)), ("desktopHeight"@, f16(f, 5)), ("pad2octets"@, f16(f, 6)), ("desktopResizeFlag"@, f16(f, 7)),
+                  ("bitmapCompressionFlag"@, c16(1)), ("highColorFlags"@, hc), ("drawingFlags"@, f8(f, 10)), ("multipleRectangleSupport"@, c16(1)), ("pad2octetsB"@, f16(f, 12))])
+}
+/// TS_ORDER_CAPABILITYSET (2.2.7.1.3): terminalDescriptor (16 bytes), orderSupport (32 bytes), the rest u16 / u32 LE in this order (84 bytes)
+pub open spec fn order_cap_view(f: Seq<(Seq<char>, MV)>) -> MV {
+    MV::Comp(seq![("terminalDescriptor"@, MV::Bytes(f[0].1->Bytes_0)), ("pad4octetsA"@, f32(f, 1)), ("desktopSaveXGranularity"@, f16(f, 2)), ("desktopSaveYGranularity"@, f16(f, 3)),
+                  ("pad2octetsA"@, f16(f, 4)), ("maximumOrderLevel"@, f16(f, 5)), ("numberFonts"@, f16(f, 6)), ("orderFlags"@, f16(f, 7)),
+                  ("orderSupport"@, MV::Bytes(f[8].1->Bytes_0)), ("textFlags"@, f16(f, 9)), ("orderSupportExFlags"@, f16(f, 10)), ("pad4octetsB"@, f32(f, 11)),
+                  ("desktopSaveSize"@, f32(f, 12)), ("pad2octetsC"@, f16(f, 13)), ("pad2octetsD"@, f16(f, 14)), ("textANSICodePage"@, f16(f, 15)), ("pad2octetsE"@, f16(f, 16))])
+}
+/// TS_BITMAPCACHE_CAPABILITYSET (2.2.7.1.4.1): six u32 LE pads, then (entries, maximum cell size) u16 LE pairs of the three caches
+pub open spec fn bitmap_cache_cap_view(f: Seq<(Seq<char>, MV)>) -> MV {
+    MV::Comp(seq![("pad1"@, f32(f, 0)), ("pad2"@, f32(f, 1)), ("pad3"@, f32(f, 2)), ("pad4"@, f32(f, 3)), ("pad5"@, f32(f, 4)), ("pad6"@, f32(f, 5)),
+                  ("cache0Entries"@, f16(f, 6)), ("cache0MaximumCellSize"@, f16(f, 7)), ("cache1Entries"@, f16(f, 8)), ("cache1MaximumCellSize"@, f16(f, 9)),
+                  ("cache2Entries"@, f16(f, 10)), ("cache2MaximumCellSize"@, f16(f, 11))])
+}
+/// TS_POINTER_CAPABILITYSET (2.2.7.1.5): colorPointerFlag, colorPointerCacheSize (u16 LE); the optional pointerCacheSize that follows is not interpreted
+pub open spec fn pointer_cap_view(f: Seq<(Seq<char>, MV)>) -> MV { MV::Comp(seq![("colorPointerFlag"@, f16(f, 0)), ("colorPointerCacheSize"@, f16(f, 1))]) }
+/// TS_SOUND_CAPABILITYSET (2.2.7.1.11): soundFlags, pad2octetsA (u16 LE)
+pub open spec fn sound_cap_view(f: Seq<(Seq<char>, MV)>) -> MV { MV::Comp(seq![("soundFlags"@, f16(f, 0)), ("pad2octetsA"@, f16(f, 1))]) }
+/// TS_INPUT_CAPABILITYSET (2.2.7.1.6): inputFlags, pad2octetsA (u16 LE), keyboardLayout, keyboardType, keyboardSubType, keyboardFunctionKey (u32 LE), imeFileName (64 bytes)
+pub open spec fn input_cap_view(f: Seq<(Seq<char>, MV)>) -> MV {
+    MV::Comp(seq![("inputFlags"@, f16(f, 0)), ("pad2octetsA"@, f16(f, 1)), ("keyboardLayout"@, f32(f, 2)), ("keyboardType"@, f32(f, 3)),
+                  ("keyboardSubType"@, f32(f, 4)), ("keyboardFunctionKey"@, f32(f, 5)), ("imeFileName"@, MV::Bytes(f[6].1->Bytes_0))])
+}
+/// TS_BRUSH_CAPABILITYSET (2.2.7.1.7): brushSupportLevel (u32 LE)
+pub open spec fn brush_cap_view(f: Seq<(Seq<char>, MV)>) -> MV { MV::Comp(seq![("brushSupportLevel"@, f32(f, 0))]) }
+/// TS_GLYPHCACHE_CAPABILITYSET (2.2.7.1.8): GlyphCache = 10 TS_CACHE_DEFINITION (CacheEntries, CacheMaximumCellSize: u16 LE each), FragCache (one more, 4 bytes,
+/// kept as one u32 LE), GlyphSupportLevel (u16 LE), pad2octets (u16 LE)
+pub open spec fn glyph_cap_view(f: Seq<(Seq<char>, MV)>) -> MV {
+    MV::Comp(seq![("glyphCache"@, MV::Trame(Seq::new(10, |i: int| cache_entry_view()))), ("fragCache"@, f32(f, 1)), ("glyphSupportLevel"@, f16(f, 2)), ("pad2octets"@, f16(f, 3))])
+}
+/// TS_OFFSCREEN_CAPABILITYSET (2.2.7.1.9): offscreenSupportLevel (u32 LE), offscreenCacheSize, offscreenCacheEntries (u16 LE)
+pub open spec fn offscreen_cap_view(f: Seq<(Seq<char>, MV)>) -> MV {
+    MV::Comp(seq![("offscreenSupportLevel"@, f32(f, 0)), ("offscreenCacheSize"@, f16(f, 1)), ("offscreenCacheEntries"@, f16(f, 2))])
+}
+/// TS_VIRTUALCHANNEL_CAPABILITYSET (2.2.7.1.10): flags (u32 LE), VCChunkSize (u32 LE, OPTIONAL: a conforming server may send the 8 byte form)
+pub open spec fn virtualchannel_cap_view(f: Seq<(Seq<char>, MV)>) -> MV {
+    MV::Comp(seq![("flags"@, f32(f, 0)), ("VCChunkSize"@, MV::Opt(Some(Box::new(MV::U32((*f[1].1->Opt_0->Some_0)->U32_0, true)))))])
+}
+/// TS_MULTIFRAGMENTUPDATE_CAPABILITYSET (2.2.7.2.6): MaxRequestSize (u32 LE)
+pub open spec fn multifragment_cap_view(f: Seq<(Seq<char>, MV)>) -> MV { MV::Comp(seq![("MaxRequestSize"@, f32(f, 0))]) }
+""", mod="capability", name="capability_layouts"))
 
 CAP_BUILDERS = ["ts_general_capability_set", "ts_bitmap_capability_set", "ts_order_capability_set", "ts_bitmap_cache_capability_set", "ts_pointer_capability_set",
                 "ts_sound_capability_set", "ts_input_capability_set", "ts_brush_capability_set", "ts_glyph_capability_set", "ts_offscreen_capability_set",
@@ -64,9 +134,33 @@ CAP_POST = {"ts_glyph_capability_set": """proof { let s = r.message.fields()[0].
             "ts_order_capability_set": len_chain("r.message", [16, 4, 2, 2, 2, 2, 2, 2, 32, 2, 2, 4, 4, 2, 2, 2, 2]),
             "ts_bitmap_cache_capability_set": len_chain("r.message", [4] * 6 + [2] * 6),
             "ts_input_capability_set": len_chain("r.message", [2, 2, 4, 4, 4, 4, 64])}
+# ---- document-based layout clauses (views above).  DISCREPANCY (minor: a capability set that fails to parse is dropped with a diagnostic, the connection goes on):
+# ts_bitmap_capability_set reads receive1BitPerPixel / receive4BitsPerPixel / receive8BitsPerPixel through Check(0x0001) and highColorFlags through Check(0), which
+# MS-RDPBCGR 2.2.7.1.2 makes plain ("ignored", SHOULD) values: a server announcing e.g. receive1BitPerPixel = 0 has its bitmap capability set discarded.
+BITMAP_R = "f16(f, 1), f16(f, 2), f16(f, 3), f8(f, 9)" if DOC_STRICT else "c16(1), c16(1), c16(1), MV::Check(Box::new(MV::U8(0)))"
+CAP_VIEW = {"ts_general_capability_set": "general_cap_view(f)", "ts_bitmap_capability_set": "bitmap_cap_view(f, %s)" % BITMAP_R, "ts_order_capability_set": "order_cap_view(f)",
+            "ts_bitmap_cache_capability_set": "bitmap_cache_cap_view(f)", "ts_pointer_capability_set": "pointer_cap_view(f)", "ts_sound_capability_set": "sound_cap_view(f)",
+            "ts_input_capability_set": "input_cap_view(f)", "ts_brush_capability_set": "brush_cap_view(f)", "ts_glyph_capability_set": "glyph_cap_view(f)",
+            "ts_offscreen_capability_set": "offscreen_cap_view(f)", "ts_virtualchannel_capability_set": "virtualchannel_cap_view(f)",
+            "ts_multifragment_update_capability_ts": "multifragment_cap_view(f)"}
+# fixed-size byte fields of the documented layouts: (field index, size)
+CAP_FIXED = {"ts_order_capability_set": [(0, 16), (8, 32)], "ts_input_capability_set": [(6, 64)]}
+CAP_VIEW_CID = {b: b + "-as-documented" for b in CAP_BUILDERS}
+if not DOC_STRICT:
+    CAP_VIEW_CID["ts_bitmap_capability_set"] = "ts_bitmap_capability_set-as-documented-except-ignored-fields (as-implemented: receive1/4/8BitsPerPixel checked against 1, highColorFlags against 0; MS-RDPBCGR 2.2.7.1.2 makes them plain values)"
+def cap_view_clause(b):
+    cl = "({ let f = r.message.fields(); r.message.mv() == %s" % CAP_VIEW[b]
+    for (i, n) in CAP_FIXED.get(b, []):
+        cl += " && f[%d].1 is Bytes && f[%d].1->Bytes_0.len() == %d" % (i, i, n)
+    return ("C03,C06", CAP_VIEW_CID[b], cl + " })")
+def cap_view_post(b):
+    extra = ""
+    if b == "ts_glyph_capability_set":
+        extra = "assert(f[0].1->Trame_0 =~= Seq::new(10, |i: int| cache_entry_view())); "
+    return " proof { let f = r.message.fields(); %sassert(f =~= %s->Comp_0); }" % (extra, CAP_VIEW[b])
 for b in CAP_BUILDERS:
-    A(Fn(CAP, b, mod="capability", props=["C04", "C06"], fuel=CAP_FUEL[b], post=CAP_POST.get(b),
-         ensures=shape_clauses(CAP, b, res="r.message") + [("C04", "type", "r.cap_type is %s" % CAP_TYPE[b])]))
+    A(Fn(CAP, b, mod="capability", props=["C04", "C06", "C03"], fuel=CAP_FUEL[b], post=(CAP_POST.get(b) or "") + cap_view_post(b),
+         ensures=shape_clauses(CAP, b, res="r.message") + [("C04", "type", "r.cap_type is %s" % CAP_TYPE[b]), cap_view_clause(b)]))
 A(Fn(CAP, "cache_entry", mod="capability", ret="c", props=["C04"], fuel=4, keys=True,
      ensures=shape_clauses(CAP, "cache_entry", res="c") + [("C04", "view", "c.mv() == cache_entry_view()"), ("C04", "size", "ser(c.mv()).len() == 4")],
      post="proof { assert(c.fields() =~= cache_entry_view()->Comp_0); }"))
@@ -160,6 +254,65 @@ pub open spec fn confirm_active_bytes(share_id: u32, source: Seq<u8>, ncaps: u16
     le32(share_id) + (le16(0x03EA) + (le16(source.len() as u16) + (le16((caps.len() + 4) as u16) + (source + (le16(ncaps) + (le16(0) + caps))))))
 }
 """, mod="global", name="global_views"))
+A(Raw(r"""
+// ---------------- server -> client layouts of the global channel, transcribed from MS-RDPBCGR (NOT derived from the code; the field NAMES are the keys
+// the client looks the values up with, they do not reach the wire).  Values: what the builder puts before a read (its parameters / 0).
+/// TS_SHAREDATAHEADER behind the share control header (2.2.8.1.1.1.2): shareId (u32 LE), pad1 (u8), streamId (u8: STREAM_LOW 1, STREAM_MED 2, STREAM_HI 4: a plain
+/// value), uncompressedLength (u16 LE; counts the 18 bytes of both headers, see the annotated PDUs of section 4.1), pduType2 (u8), compressedType (u8),
+/// compressedLength (u16 LE), then the PDU body
+pub open spec fn share_data_view(share_id: u32, type2: u8, body: Seq<u8>) -> MV {
+    MV::Comp(seq![("shareId"@, MV::U32(share_id, true)), ("pad1"@, MV::U8(0)), ("streamId"@, MV::U8(1)),
+                  ("uncompressedLength"@, MV::Dyn(Box::new(MV::U16((body.len() + 18) as u16, true)), OV::Size("payload"@, body.len() as usize))),
+                  ("pduType2"@, MV::U8(type2)), ("compressedType"@, MV::U8(0)), ("compressedLength"@, MV::U16(0, true)), ("payload"@, MV::Bytes(body))])
+}
+/// TS_DEMAND_ACTIVE_PDU behind the share control header (2.2.1.13.1.1): shareId (u32 LE), lengthSourceDescriptor (u16 LE), lengthCombinedCapabilities (u16 LE: size of
+/// numberCapabilities + pad2Octets + capabilitySets), sourceDescriptor (lengthSourceDescriptor bytes), numberCapabilities (u16 LE), pad2Octets (u16 LE),
+/// capabilitySets (TS_CAPS_SET array, lengthCombinedCapabilities - 4 bytes), sessionId (u32 LE)
+pub open spec fn demand_active_view() -> MV {
+    MV::Comp(seq![("shareId"@, MV::U32(0, true)),
+                  ("lengthSourceDescriptor"@, MV::Dyn(Box::new(MV::U16(0, true)), OV::Size("sourceDescriptor"@, 0))),
+                  ("lengthCombinedCapabilities"@, MV::Dyn(Box::new(MV::U16(0, true)), OV::Size("capabilitySets"@, 0))),
+                  ("sourceDescriptor"@, MV::Bytes(Seq::empty())), ("numberCapabilities"@, MV::U16(0, true)), ("pad2Octets"@, MV::U16(0, true)),
+                  ("capabilitySets"@, MV::Arr(Seq::empty(), Box::new(capability::capability_set_view(1, Seq::empty())))),
+                  ("sessionId"@, MV::U32(0, true))])
+}
+/// TS_DEACTIVATE_ALL_PDU (2.2.3.1.1): shareId (u32 LE), lengthSourceDescriptor (u16 LE), sourceDescriptor (lengthSourceDescriptor bytes)
+pub open spec fn deactivate_all_view() -> MV {
+    MV::Comp(seq![("shareId"@, MV::U32(0, true)),
+                  ("lengthSourceDescriptor"@, MV::Dyn(Box::new(MV::U16(0, true)), OV::Size("sourceDescriptor"@, 0))),
+                  ("sourceDescriptor"@, MV::Bytes(Seq::empty()))])
+}
+/// TS_SYNCHRONIZE_PDU (2.2.1.14.1, sent by the server in 2.2.1.19): messageType (u16 LE, MUST be SYNCMSGTYPE_SYNC 1), targetUser (u16 LE).
+/// `lenient`: targetUser wrapped in an Option (a reader that also accepts a PDU cut after messageType; accepts everything the document allows)
+pub open spec fn synchronize_view(target: u16, lenient: bool) -> MV {
+    MV::Comp(seq![("messageType"@, MV::Check(Box::new(MV::U16(1, true)))),
+                  ("targetUser"@, if lenient { MV::Opt(Some(Box::new(MV::U16(target, true)))) } else { MV::U16(target, true) })])
+}
+/// TS_CONTROL_PDU (2.2.1.15.1, sent by the server in 2.2.1.20 / 2.2.1.21): action (u16 LE), grantId (u16 LE), controlId (u32 LE); plain values
+pub open spec fn control_view(action: u16) -> MV {
+    MV::Comp(seq![("action"@, MV::U16(action, true)), ("grantId"@, MV::U16(0, true)), ("controlId"@, MV::U32(0, true))])
+}
+/// TS_FONT_MAP_PDU (2.2.1.22.1): numberEntries, totalNumEntries, mapFlags, entrySize: four plain u16 LE (the document gives SHOULD-values only: 0, 0, 3, 4)
+pub open spec fn font_map_view() -> MV {
+    MV::Comp(seq![("numberEntries"@, MV::U16(0, true)), ("totalNumEntries"@, MV::U16(0, true)), ("mapFlags"@, MV::U16(3, true)), ("entrySize"@, MV::U16(4, true))])
+}
+/// TS_SET_ERROR_INFO_PDU (2.2.5.1.1): errorInfo (u32 LE)
+pub open spec fn error_info_view() -> MV { MV::Comp(seq![("errorInfo"@, MV::U32(0, true))]) }
+/// TS_UPDATE_BITMAP_DATA carried by a fast-path bitmap update (2.2.9.1.2.1.2 / 2.2.9.1.1.3.1.2.1): updateType (u16 LE, MUST be UPDATETYPE_BITMAP 0x0001),
+/// numberRectangles (u16 LE), rectangles (TS_BITMAP_DATA array)
+pub open spec fn fp_bitmap_view() -> MV {
+    MV::Comp(seq![("header"@, MV::Check(Box::new(MV::U16(1, true)))), ("numberRectangles"@, MV::U16(0, true)),
+                  ("rectangles"@, MV::Arr(Seq::empty(), Box::new(bitmap_data_view())))])
+}
+/// TS_COLORPOINTERATTRIBUTE (2.2.9.1.1.4.4): cacheIndex (u16 LE), hotSpot (TS_POINT16 = xPos u16 LE + yPos u16 LE: 4 bytes, kept as one u32 LE), width (u16 LE),
+/// height (u16 LE), lengthAndMask (u16 LE), lengthXorMask (u16 LE), xorMaskData (lengthXorMask bytes), andMaskData (lengthAndMask bytes), pad (u8, OPTIONAL)
+pub open spec fn color_pointer_view() -> MV {
+    MV::Comp(seq![("cacheIndex "@, MV::U16(0, true)), ("hotSpot "@, MV::U32(0, true)), ("width"@, MV::U16(0, true)), ("height"@, MV::U16(0, true)),
+                  ("lengthAndMask"@, MV::Dyn(Box::new(MV::U16(0, true)), OV::Size("andMaskData"@, 0))),
+                  ("lengthXorMask"@, MV::Dyn(Box::new(MV::U16(0, true)), OV::Size("xorMaskData"@, 0))),
+                  ("xorMaskData"@, MV::Bytes(Seq::empty())), ("andMaskData"@, MV::Bytes(Seq::empty())), ("pad"@, MV::Opt(Some(Box::new(MV::U8(0)))))])
+}
+""", mod="global", name="global_server_layouts"))
 
 # ---- builders: shape derived from the code (helper contract), values from the specification
 def builder(name, res, extra=None, props=("C04", "C06"), **kw):
@@ -174,10 +327,14 @@ def size_closure(param, field, k=0):
 CAPSET_DEFAULT = dict(params="", ret="-> (c: Component)", spec="ensures c.mv() == capability::capability_set_view(1, Seq::empty())")
 OPT_MSG = "(if message is Some { message->Some_0@ } else { Seq::<u8>::empty() })"
 
-builder("ts_demand_active_pdu", "r.message", keys=True,
+builder("ts_demand_active_pdu", "r.message", keys=True, props=("C04", "C06", "C03"),
         closures={1: size_closure("length", "sourceDescriptor"), 2: size_closure("length", "capabilitySets", 4), 3: CAPSET_DEFAULT},
         extra=[(None, "type", "r.pdu_type is PdutypeDemandactivepdu"),
-               ("C06", "prototype", "r.message.fields()[6].1 matches MV::Arr(s, p) && s.len() == 0 && *p == capability::capability_set_view(1, Seq::empty())")])
+               ("C06", "prototype", "r.message.fields()[6].1 matches MV::Arr(s, p) && s.len() == 0 && *p == capability::capability_set_view(1, Seq::empty())"),
+               # MS-RDPBCGR 2.2.1.13.1.1; closures #1 / #2 (above): sourceDescriptor has lengthSourceDescriptor bytes, capabilitySets has lengthCombinedCapabilities - 4 bytes
+               ("C03,C06", "ts_demand_active_pdu-as-documented", "r.message.mv() == demand_active_view()")],
+        post="""proof { let f = r.message.fields(); let g = demand_active_view()->Comp_0;
+            assert(f[6].1->Arr_0 =~= Seq::<MV>::empty()); assert(f[6].1 == g[6].1); assert(f =~= g); }""")
 OPT_SRC = "(if source is Some { source->Some_0@ } else { Seq::<u8>::empty() })"
 OPT_CAPS = "(if capabilities_set is Some { capabilities_set->Some_0.mv()->Arr_0 } else { Seq::<MV>::empty() })"
 CA_LETS = "let src = %s; let cs = %s; let caps = ser_seq(cs);" % (OPT_SRC, OPT_CAPS)
@@ -193,15 +350,21 @@ builder("ts_confirm_active_pdu", "r.message", fuel=3,
                ("C06", "default-prototype", "capabilities_set is None ==> (r.message.fields()[7].1 matches MV::Arr(s, p) && s.len() == 0 && *p == capability::capability_set_view(1, Seq::empty()))"),
                ("C04,C06", "given-array", "capabilities_set is Some ==> r.message.fields()[7].1 == capabilities_set->Some_0.mv()"),
                ("C06", "default-source", "source is None ==> r.message.fields()[4].1 == MV::Bytes(Seq::empty())")])
-builder("ts_deactivate_all_pdu", "r.message", keys=True, closures={1: size_closure("length", "sourceDescriptor")},
-        extra=[(None, "type", "r.pdu_type is PdutypeDeactivateallpdu")])
+builder("ts_deactivate_all_pdu", "r.message", keys=True, props=("C04", "C06", "C03"), closures={1: size_closure("length", "sourceDescriptor")},
+        extra=[(None, "type", "r.pdu_type is PdutypeDeactivateallpdu"),
+               # MS-RDPBCGR 2.2.3.1.1; closure #1: sourceDescriptor has lengthSourceDescriptor bytes
+               ("C03,C06", "ts_deactivate_all_pdu-as-documented", "r.message.mv() == deactivate_all_view()")],
+        post='proof { assert(r.message.fields() =~= deactivate_all_view()->Comp_0); }')
 SDH_T2 = "(if pdu_type_2 is Some { pdu_type_2->Some_0 as u8 } else { 0x32u8 })"
-builder("share_data_header", "r.message", props=("C04", "C06", "C11"), fuel=3,
-        post=bytes_chain("r.message", ["le32(o32(share_id, 0))", "seq![0u8]", "seq![1u8]", "le16((msg.len() + 18) as u16)", "seq![%s]" % SDH_T2, "seq![0u8]", "le16(0)", "msg"], "let msg = %s;" % OPT_MSG),
+builder("share_data_header", "r.message", props=("C04", "C06", "C11", "C03"), fuel=3,
+        post=bytes_chain("r.message", ["le32(o32(share_id, 0))", "seq![0u8]", "seq![1u8]", "le16((msg.len() + 18) as u16)", "seq![%s]" % SDH_T2, "seq![0u8]", "le16(0)", "msg"], "let msg = %s;" % OPT_MSG)
+             + " proof { assert(r.message.fields() =~= share_data_view(o32(share_id, 0), %s, %s)->Comp_0); }" % (SDH_T2, OPT_MSG),
         requires=["(if message is Some { message->Some_0@.len() } else { 0 }) + 18 <= 0xffff"],
         closures={1: size_closure("size", "payload", 18)},
         extra=[(None, "type", "r.pdu_type is PdutypeDatapdu"),
-               ("C04,C11", "bytes", "ser(r.message.mv()) =~= share_data_bytes(o32(share_id, 0), (if pdu_type_2 is Some { pdu_type_2->Some_0 as u8 } else { 0x32u8 }), (if message is Some { message->Some_0@ } else { Seq::<u8>::empty() }))")])
+               ("C04,C11", "bytes", "ser(r.message.mv()) =~= share_data_bytes(o32(share_id, 0), (if pdu_type_2 is Some { pdu_type_2->Some_0 as u8 } else { 0x32u8 }), (if message is Some { message->Some_0@ } else { Seq::<u8>::empty() }))"),
+               # MS-RDPBCGR 2.2.8.1.1.1.2, as READ by PDU::from_control: every field a plain value (no checked constant: servers use streamId 1, 2 and 4); closure #1: the body has uncompressedLength - 18 bytes
+               ("C03,C06", "share_data_header-as-documented", "r.message.mv() == share_data_view(o32(share_id, 0), %s, %s)" % (SDH_T2, OPT_MSG))])
 SCH_TYPE = "(if pdu_type is Some { pdu_type->Some_0 as u16 } else { 0x11u16 })"
 builder("share_control_header", "c", ret="c", props=("C04", "C06", "C11"), keys=True, fuel=3,
         requires=["(if message is Some { message->Some_0@.len() } else { 0 }) + 6 <= 0xffff"],
@@ -211,14 +374,25 @@ builder("share_control_header", "c", ret="c", props=("C04", "C06", "C11"), keys=
         post=bytes_chain("c", ["le16((msg.len() + 6) as u16)", "le16(%s)" % SCH_TYPE, "le16(o16(pdu_source, 0))", "msg"], "let msg = %s;" % OPT_MSG)
              + " proof { assert(c.fields() =~= share_control_view(%s, o16(pdu_source, 0), %s)->Comp_0); }" % (SCH_TYPE, OPT_MSG))
 builder("ts_synchronize_pdu", "r.message", props=("C04", "C06", "C12", "C03"), fuel=4,
-        post="proof { let f = r.message.fields(); assert(f[1].1 == MV::Opt(Some(Box::new(MV::U16(o16(target_user, 0), true))))); assert(ser(f[1].1) =~= le16(o16(target_user, 0))); assert(ser(f[0].1) =~= le16(1)); }",
-        extra=[(None, "type", "r.pdu_type is Pdutype2Synchronize"), ("C04,C12,C03", "bytes", "ser(r.message.mv()) =~= sync_body(o16(target_user, 0))")])
+        post="proof { let f = r.message.fields(); assert(f[1].1 == MV::Opt(Some(Box::new(MV::U16(o16(target_user, 0), true))))); assert(ser(f[1].1) =~= le16(o16(target_user, 0))); assert(ser(f[0].1) =~= le16(1)); assert(f =~= synchronize_view(o16(target_user, 0), true)->Comp_0); }",
+        extra=[(None, "type", "r.pdu_type is Pdutype2Synchronize"), ("C04,C12,C03", "bytes", "ser(r.message.mv()) =~= sync_body(o16(target_user, 0))"),
+               # MS-RDPBCGR 2.2.1.14.1, as READ by DataPDU::from_pdu (Server Synchronize PDU 2.2.1.19): messageType is a checked constant (MUST be 1), targetUser a u16 LE, optionally wrapped
+               ("C03,C06", "ts_synchronize_pdu-as-documented", "r.message.mv() == synchronize_view(o16(target_user, 0), true) || r.message.mv() == synchronize_view(o16(target_user, 0), false)")])
 builder("ts_font_list_pdu", "r.message", props=("C04", "C12", "C03"), fuel=6,
         extra=[(None, "type", "r.pdu_type is Pdutype2Fontlist"), ("C04,C12,C03", "bytes", "ser(r.message.mv()) =~= fontlist_body()")])
-builder("ts_set_error_info_pdu", "r.message", extra=[(None, "type", "r.pdu_type is Pdutype2SetErrorInfoPdu")])
+builder("ts_set_error_info_pdu", "r.message", props=("C04", "C06", "C03"),
+        extra=[(None, "type", "r.pdu_type is Pdutype2SetErrorInfoPdu"),
+               ("C03,C06", "ts_set_error_info_pdu-as-documented", "r.message.mv() == error_info_view()")],   # MS-RDPBCGR 2.2.5.1.1
+        post='proof { assert(r.message.fields() =~= error_info_view()->Comp_0); }')
 builder("ts_control_pdu", "r.message", props=("C04", "C06", "C12", "C03"), fuel=5,
-        extra=[(None, "type", "r.pdu_type is Pdutype2Control"), ("C04,C12,C03", "bytes", "ser(r.message.mv()) =~= control_body(if action is Some { action->Some_0 as u16 } else { 4u16 })")])
-builder("ts_font_map_pdu", "r.message", extra=[(None, "type", "r.pdu_type is Pdutype2Fontmap")])
+        extra=[(None, "type", "r.pdu_type is Pdutype2Control"), ("C04,C12,C03", "bytes", "ser(r.message.mv()) =~= control_body(if action is Some { action->Some_0 as u16 } else { 4u16 })"),
+               # MS-RDPBCGR 2.2.1.15.1, as READ by DataPDU::from_pdu (Server Control Cooperate / Granted Control): three plain values (grantId / controlId are the ids the server chose)
+               ("C03,C06", "ts_control_pdu-as-documented", "r.message.mv() == control_view(if action is Some { action->Some_0 as u16 } else { 4u16 })")],
+        post='proof { assert(r.message.fields() =~= control_view(if action is Some { action->Some_0 as u16 } else { 4u16 })->Comp_0); }')
+builder("ts_font_map_pdu", "r.message", props=("C04", "C06", "C03"),
+        extra=[(None, "type", "r.pdu_type is Pdutype2Fontmap"),
+               ("C03,C06", "ts_font_map_pdu-as-documented", "r.message.mv() == font_map_view()")],   # MS-RDPBCGR 2.2.1.22.1
+        post='proof { assert(r.message.fields() =~= font_map_view()->Comp_0); }')
 builder("ts_input_pdu_data", "r.message", props=("C04", "C11"), fuel=5,
         closures={1: dict(params="", ret="-> (c: Component)", spec="ensures c.mv() == input_event_view(0x8001, Seq::empty())")},
         extra=[(None, "type", "r.pdu_type is Pdutype2Input"),
@@ -260,13 +434,20 @@ builder("ts_bitmap_data", "c", ret="c", props=("C06", "C10"), keys=True,
         hints=[(r'MessageOption::Size\("bitmapDataStream"\.to_string\(\), cast!', 1, "proof { reveal_with_fuel(same_shape, 2); let f = header.fields(); let g = cd_header_view()->Comp_0; assert(g[1].0 == f[1].0 && g[0].0 == f[0].0 && g[2].0 == f[2].0 && g[3].0 == f[3].0 && same_shape(g[1].1, f[1].1) && same_shape(g[3].1, f[3].1)); assert(first_key(f, \"cbCompMainBodySize\"@) == 1); }", "at")],
         extra=[("C06,C10", "view", "c.mv() == bitmap_data_view()")],
         post="proof { assert(0u16 & 0x0001 == 0) by(bit_vector); assert(c.fields() =~= bitmap_data_view()->Comp_0); }")
-builder("ts_fp_update_bitmap", "r.message", props=("C06", "C10"),
+builder("ts_fp_update_bitmap", "r.message", props=("C06", "C10", "C03"),
         closures={1: dict(params="", ret="-> (c: Component)", spec="ensures c.mv() == bitmap_data_view()")},
         extra=[(None, "type", "r.fp_type is FastpathUpdatetypeBitmap"),
-               ("C06,C10", "prototype", "r.message.fields()[2].1 matches MV::Arr(s, p) && s.len() == 0 && *p == bitmap_data_view()")])
-builder("ts_colorpointerattribute", "r.message", props=("C06",),
+               ("C06,C10", "prototype", "r.message.fields()[2].1 matches MV::Arr(s, p) && s.len() == 0 && *p == bitmap_data_view()"),
+               # MS-RDPBCGR 2.2.9.1.1.3.1.2.1 TS_UPDATE_BITMAP_DATA: updateType checked against UPDATETYPE_BITMAP (1), numberRectangles u16 LE, TS_BITMAP_DATA array
+               ("C03,C06,C10", "ts_fp_update_bitmap-as-documented", "r.message.mv() == fp_bitmap_view()")],
+        post="""proof { let f = r.message.fields(); let g = fp_bitmap_view()->Comp_0;
+            assert(f[2].1->Arr_0 =~= Seq::<MV>::empty()); assert(f[2].1 == g[2].1); assert(f =~= g); }""")
+builder("ts_colorpointerattribute", "r.message", props=("C06", "C03"),
         closures={1: size_closure("length", "andMaskData"), 2: size_closure("length", "xorMaskData")},
-        extra=[(None, "type", "r.fp_type is FastpathUpdatetypeColor")])
+        extra=[(None, "type", "r.fp_type is FastpathUpdatetypeColor"),
+               # MS-RDPBCGR 2.2.9.1.1.4.4; closures #1 / #2: andMaskData has lengthAndMask bytes, xorMaskData has lengthXorMask bytes
+               ("C03,C06", "ts_colorpointerattribute-as-documented", "r.message.mv() == color_pointer_view()")],
+        post='proof { assert(r.message.fields() =~= color_pointer_view()->Comp_0); }')
 G("ts_fp_update_synchronize", props=["C06"], ensures=[(None, "shape", "r.message.fields().len() == 0 && r.fp_type is FastpathUpdatetypeSynchronize")])
 G("ts_fp_systempointerhiddenattribute", props=["C06"], ensures=[(None, "shape", "r.message.fields().len() == 0 && r.fp_type is FastpathUpdatetypePtrNull")])
 
